@@ -218,6 +218,9 @@ func c20Copies(t *testing.T, rc *core.RunCtx) {
 	cfg := c20Cfg
 	cfg.minOps, cfg.maxOps = 2, 6
 	cfg.handlers = false
+	if cfg.pAfter == 0 {
+		cfg.pAfter = 3
+	}
 	tp := rc.Plan
 	p := genPlan(tp, &cfg)
 	getters := []string{"ActiveStates", "Schema", "Clock", "Time", "Tags", "Queue", "Tracers"}
@@ -247,6 +250,16 @@ func c20Copies(t *testing.T, rc *core.RunCtx) {
 			before = fmt.Sprint(v1.Len())
 		}
 		// the caller scribbles over what it got
+		if sc, ok := v1.Interface().(am.Schema); ok {
+			// also over the relation lists inside each state
+			for _, st := range sc {
+				for _, l := range [][]string{st.Require, st.Add, st.Remove, st.After, st.Tags} {
+					for i := range l {
+						l[i] = "Scribbled"
+					}
+				}
+			}
+		}
 		switch v1.Kind() {
 		case reflect.Slice:
 			for i := 0; i < v1.Len(); i++ {
